@@ -196,20 +196,23 @@ def handle4 (op : String) (a obs : List String) : Option Verdict :=
     let seed ← parseNat (get a 3)
     let qm := field obs "quic_max"
     let quicMax : Option Nat := if qm == "none" then none else qm.toNat?
-    let mx := Datagram.maxDatagramSize quicMax 0
+    -- the session's id (optional fifth argument; 0 when the CONNECT stream is the client's first)
+    let sid := (get a 4).toNat?.getD 0
+    let hdr := Varint.enc (Ids.qOfSession sid)
+    let mx := Datagram.maxDatagramSize quicMax sid
     let sends := splitList (field obs "send")
     -- (index, length, result) of every send in order
     let idx := (List.range sends.length).zip sends
     let expSend (len : Nat) : String := match quicMax with
       | none => "unsupported"
-      | some q => if Datagram.tooLarge q 0 (List.replicate len 0) then "too_large" else "ok"
+      | some q => if Datagram.tooLarge q sid (List.replicate len 0) then "too_large" else "ok"
     let modelSends := sends.map fun s =>
       match ((s.splitOn ":").headD "").toNat? with
       | some len => s!"{len}:{expSend len}"
       | none => s
     let okPayloads : List String := idx.filterMap fun (i, s) =>
       match s.splitOn ":" with
-      | [l, "ok"] => l.toNat?.map fun len => hex ([0] ++ payloadP seed i len)
+      | [l, "ok"] => l.toNat?.map fun len => hex (hdr ++ payloadP seed i len)
       | _ => none
     let recvd := splitList (field obs "recv")
     let model := [s!"max={match mx with | some m => toString m | none => "none"}", s!"quic_max={qm}",
@@ -219,7 +222,7 @@ def handle4 (op : String) (a obs : List String) : Option Verdict :=
         "recv=" ++ (if okPayloads.isEmpty then "-" else ",".intercalate okPayloads)]
     let prop := check [("no_trap", !isTrap obs),
       ("max_is_quic_limit_minus_header_or_absent", field obs "max" == (match quicMax with
-        | none => "none" | some q => if q < 1 then "none" else toString (q - 1))),
+        | none => "none" | some q => if q < hdr.length then "none" else toString (q - hdr.length))),
       ("too_large_iff_longer_than_max", sends.all fun s =>
         match s.splitOn ":" with
         | [l, r] => (match l.toNat?, mx with
@@ -231,13 +234,15 @@ def handle4 (op : String) (a obs : List String) : Option Verdict :=
     pure (model, prop)
   | "dgram.recv" => do
     let items := splitList (get a 1)
+    -- the live session's id (optional third argument)
+    let liveSid := (get a 2).toNat?.getD 0
     -- the model: each QUIC datagram through `Datagram.appRead`; a malformed one ends the session
     let rec go : List String → List String → List String × Bool
       | [], acc => (acc.reverse, false)
       | it :: r, acc =>
         match (unhex it).bind Datagram.appRead with
         | none => (acc.reverse, true)
-        | some d => if d.sessionId == 0 then go r (hex d.payload :: acc) else go r acc
+        | some d => if d.sessionId == liveSid then go r (hex d.payload :: acc) else go r acc
     let (exp, broken) := go items []
     let recvd := if field obs "recv" == "" || field obs "recv" == "-" then [] else (field obs "recv").splitOn ","
     let adopt := subsequence recvd exp
@@ -247,7 +252,7 @@ def handle4 (op : String) (a obs : List String) : Option Verdict :=
     -- spec view: quarter stream id 0 names the live session; anything else is foreign
     let live := items.filterMap fun it =>
       match (unhex it).bind Spec.varint with
-      | some (q, p) => if q == 0 then some (hex p) else none
+      | some (q, p) => if q * 4 == liveSid then some (hex p) else none
       | none => none
     let prop := check [("no_trap", !isTrap obs),
       ("only_live_session_payloads_unaltered_in_order", subsequence recvd live),
